@@ -38,7 +38,7 @@ CONSTANTS
   Local0,    \* the node owning the box
   T100,      \* threshold in tenths of a percent (670 = 67.0)
   EmitStep,  \* fill the output variable `step` (behaviour export) or leave it empty (exhaustive runs)
-  Heights, Rounds, Facts,
+  Heights, Rounds, Stages, Facts,
   ExSets,    \* the sets of expelled nodes a ballot may carry (contains {})
   AllowSC,   \* suffrage-confirm ballots in the closed model?
   MaxId,     \* record objects 1..MaxId
@@ -47,7 +47,8 @@ CONSTANTS
   MaxSet,    \* bound on SetLastPoint steps
   StoreSC,   \* key prefix under which suffrage-confirm records are stored ("sf-")
   CleanSC,   \* key prefix clean() computes for them ("sf-" by design; the pinned tree used "sign-")
-  CountRule  \* "sound": a count emits any sound candidate; "impl": what countFromVoted does
+  CountRule, \* "sound": a count emits any sound candidate; "impl": what countFromVoted does
+  EagerCount \* TRUE: a pending count runs before the next Vote (a sequential caller that lets the box come to rest)
 
 (* the suffrage, its owner and the threshold are state (constant in this module:   *)
 (* Init takes them from Node0/Local0/T100; the trace module sets them per history)  *)
@@ -121,9 +122,9 @@ VP(p, sc, res, mk, V, X) == [h |-> p.h, r |-> p.r, s |-> p.s, sc |-> sc, res |->
 
 (* C04 (ii)-(iv): vp is a sound voteproof over the accepted ballots A of one   *)
 (* (stage point, flag); n = suffrage size                                       *)
-Recount(vp) ==
+RecountT(vp, tt) ==
   LET n == Cardinality(Node) IN
-  IF vp.ex = {} THEN Tally(n, Req(n, T10), vp.sfs)
+  IF vp.ex = {} THEN Tally(n, Req(n, tt), vp.sfs)
   ELSE Tally(n - Cardinality(vp.ex), n - Cardinality(vp.ex), vp.sfs)
 Sound(vp, A) ==
   /\ vp.sfs \subseteq A /\ vp.sfs # {}
@@ -131,7 +132,7 @@ Sound(vp, A) ==
   /\ Cardinality(Voters(vp.sfs)) = Cardinality(vp.sfs)          \* pairwise distinct nodes
   /\ Voters(vp.sfs) \cap vp.ex = {}                               \* an expelled node does not vote
   /\ vp.ex \subseteq Node
-  /\ LET t == Recount(vp) IN
+  /\ LET t == RecountT(vp, T10) IN
        /\ vp.res = t.res
        /\ vp.res # "NOT YET"
        /\ vp.res = "MAJORITY" => vp.mk \in t.maj
@@ -150,35 +151,31 @@ SoundCandidates(p, isc, V) ==
   IN UNION {cand(X) : X \in {{}} \cup {v.ex : v \in V}}
 
 (* transcription of voterecords.countFromVoted / countWithExpels /            *)
-(* sortBallotSignFactsByExpels: for each distinct fact that carries expels     *)
-(* (largest expel set first; the order among equals is the map's), the votes   *)
-(* of the nodes it does not expel are tallied with threshold T over the full   *)
-(* suffrage unless more than n - Req(n, 67%) nodes are expelled; the first     *)
-(* that is decided wins; otherwise the plain tally of all votes.               *)
+(* sortBallotSignFactsByExpels: every distinct expel set X carried by a vote   *)
+(* (not naming the local node) is an entry; entries are tried largest first    *)
+(* (the order among equals is a map's): the votes of the nodes X does not      *)
+(* expel are tallied with threshold T over the full suffrage - unless more     *)
+(* than n - Req(n, 67%) nodes are expelled, then at 100% over n - |X|. The     *)
+(* first entry that is decided stops the search: MAJORITY => an expel          *)
+(* voteproof with threshold T; DRAW => as if nothing was found. Otherwise the  *)
+(* plain tally of all votes (a DRAW with pending INIT expels is held back for  *)
+(* a while before it is emitted).                                              *)
 ImplCandidates(p, isc, V) ==
   LET n == Cardinality(Node)
       XS == {v.ex : v \in {w \in V : w.ex # {} /\ Local \notin w.ex}}
-      wcand(X) ==
-        LET S == {v \in V : v.node \notin X}
-            big == Cardinality(X) > n - Req(n, 670)
-            q == IF big THEN n - Cardinality(X) ELSE n
-            rq == IF big THEN q ELSE Req(n, T10)
-            t == Tally(q, rq, S)
-        IN IF Cardinality(S) < Min2(rq, q) \/ t.res = "NOT YET" THEN {}
-           ELSE IF t.res = "DRAW" THEN {VP(p, FALSE, "DRAW", NoFK, S, X)}
-           ELSE {VP(p, isc, "MAJORITY", k, S, X) : k \in t.maj}
-      maxlen == IF XS = {} THEN 0 ELSE CHOOSE m \in {Cardinality(X) : X \in XS} : \A X \in XS : Cardinality(X) <= m
-      (* the first decided entry in descending size order: an entry of size m   *)
-      (* wins only if no larger entry is decided                                 *)
-      winners == {X \in XS : wcand(X) # {} /\ \A Y \in XS : Cardinality(Y) > Cardinality(X) => wcand(Y) = {}}
-      plain == LET t == Tally(n, Req(n, T10), V) IN
-               IF t.res = "NOT YET" THEN {}
-               ELSE IF t.res = "DRAW" THEN {VP(p, FALSE, "DRAW", NoFK, V, {})}
-               ELSE {VP(p, isc, "MAJORITY", k, V, {}) : k \in t.maj}
-  IN IF winners # {} THEN UNION {wcand(X) : X \in winners}
-     ELSE IF XS # {} /\ p.s = INIT /\ plain # {} /\ \A c \in plain : c.res = "DRAW"
-          THEN {}                       \* draw with pending INIT expels: held back (countAfter)
-          ELSE plain
+      S(X) == {v \in V : v.node \notin X}
+      big(X) == Cardinality(X) > n - Req(n, 670)
+      q(X) == IF big(X) THEN n - Cardinality(X) ELSE n
+      rq(X) == IF big(X) THEN q(X) ELSE Req(n, T10)
+      t(X) == Tally(q(X), rq(X), S(X))
+      decided(X) == Cardinality(S(X)) >= Min2(rq(X), q(X)) /\ t(X).res # "NOT YET"
+      first == {X \in XS : decided(X) /\ \A Y \in XS : Cardinality(Y) > Cardinality(X) => ~decided(Y)}
+      plain == LET tp == Tally(n, Req(n, T10), V) IN
+               IF tp.res = "NOT YET" THEN {}
+               ELSE IF tp.res = "DRAW" THEN {VP(p, FALSE, "DRAW", NoFK, V, {})}
+               ELSE {VP(p, isc, "MAJORITY", k, V, {}) : k \in tp.maj}
+  IN UNION {IF t(X).res = "MAJORITY" THEN {VP(p, isc, "MAJORITY", k, S(X), X) : k \in t(X).maj} ELSE plain : X \in first}
+     \cup (IF first = {} THEN plain ELSE {})
 
 (* -------------------------------------------------------------------- state *)
 VARIABLES
@@ -208,7 +205,7 @@ KeyOf(p, isc, scprefix) == [p |-> IF isc THEN scprefix ELSE "", sp |-> p]
 StoreKey(p, isc) == KeyOf(p, isc, StoreSC)
 KeyIsSC(k) == k.p # ""
 
-Ballots == {b \in [node : Node0, h : Heights, r : Rounds, s : {INIT, ACCEPT}, sc : BOOLEAN, f : Facts, ex : ExSets] :
+Ballots == {b \in [node : Node0, h : Heights, r : Rounds, s : Stages, sc : BOOLEAN, f : Facts, ex : ExSets] :
               /\ b.sc => (AllowSC /\ b.s = INIT /\ b.ex # {})
               /\ b.node \notin b.ex}
 VoteOf(b) == [node |-> b.node, f |-> b.f, ex |-> b.ex]
@@ -223,7 +220,8 @@ Init ==
   /\ step = ""
 
 (* checkBallot + isNewBallot of Ballotbox.Vote/vote *)
-Admissible(b, evpex) == b.node \in Node /\ Local \notin b.ex /\ Local \notin evpex
+(* a suffrage-confirm ballot takes its expels from the voteproof it carries *)
+Admissible(b, evpex) == b.node \in Node /\ Local \notin evpex /\ (b.sc \/ Local \notin b.ex)
 IsNewBallot(b) == Before(last, SPOf(b), b.sc)
 
 (* the record object's own admission (voterecords.vote) *)
@@ -259,8 +257,14 @@ VoteEffect(b, evpex, id, voted) ==
                /\ mat' = [mat EXCEPT ![k] = @ \cup {VoteOf(b)}]
           ELSE UNCHANGED <<robj, mat>>
 
+Candidates(o) == IF CountRule = "impl" THEN ImplCandidates(o.sp, o.isc, o.votes)
+                 ELSE SoundCandidates(o.sp, o.isc, o.votes)
+CountReady(id) ==
+  LET o == robj[id] IN
+  o.sp # ZeroSP /\ Before(last, o.sp, o.isc) /\ ~o.fin /\ o.votes # {} /\ Candidates(o) # {}
 Vote(b) ==
   /\ nvotes < MaxVotes
+  /\ EagerCount => ~cleaning /\ \A id \in Range(recs) : ~CountReady(id)
   /\ nvotes' = nvotes + 1
   /\ \E id \in (IF StoreKey(SPOf(b), b.sc) \in DOMAIN recs THEN {0} ELSE AvailIds), voted \in BOOLEAN :
        /\ VoteEffect(b, {}, id, voted)
@@ -272,8 +276,6 @@ Vote(b) ==
 NewLast(vp) == [h |-> vp.h, r |-> vp.r, s |-> vp.s, maj |-> vp.res = "MAJORITY", sc |-> vp.sc]
 Advance(l, nl) == IF Before(l, SPOf(nl), nl.sc) THEN nl ELSE l
 
-Candidates(o) == IF CountRule = "impl" THEN ImplCandidates(o.sp, o.isc, o.votes)
-                 ELSE SoundCandidates(o.sp, o.isc, o.votes)
 
 (* countVoterecords of the record object id *)
 Count(id) ==
@@ -401,6 +403,15 @@ ImplEmitsSound ==
      LET o == robj[recs[k]] IN
      (~o.fin /\ o.sp # ZeroSP) =>
         \A vp \in ImplCandidates(o.sp, o.isc, o.votes) : Sound(vp, mat[k])
+
+(* ... in particular the expels an emitted voteproof carries are those its      *)
+(* majority fact names (Voteproof.IsValid compares them)                        *)
+ImplExpelsMatchMajority ==
+  \A k \in DOMAIN recs :
+     LET o == robj[recs[k]] IN
+     (~o.fin /\ o.sp # ZeroSP) =>
+        \A vp \in ImplCandidates(o.sp, o.isc, o.votes) :
+           (vp.ex # {} /\ vp.res = "MAJORITY" /\ vp.mk[2] # {}) => vp.mk[2] = vp.ex
 
 (* reachability witnesses (negations are checked to fail in development)       *)
 NoSCRelease == [][~(cleaning /\ ~cleaning' /\ \E k \in ReleasedKeys(recs, last) : KeyIsSC(k))]_vars
